@@ -186,6 +186,42 @@ fn padded_keywords_instance(n: usize, pad: usize) -> Instance {
     Instance { name: format!("{n} irregular keywords padded with {pad}..{} empty groups each", pad + 16), cfg: Cfg::single(pats), probes, states }
 }
 
+/// `n` short patterns `<a|b><id><pads>`: the first letter alternates aperiodically between two
+/// classes (Thue-Morse), the id (base 34, unique) keeps every pattern distinguishable, and 0..2
+/// empty groups in front plus 1..4 behind make the positions of the first-character transitions
+/// dense and irregular in the state numbering of the unminimized automaton, which crosses 2^16
+/// states after roughly three quarters of the list.
+fn dense_instance(n: usize) -> Instance {
+    let digits: Vec<char> = "cdefghijklmnopqrstuvwxyz0123456789".chars().collect();
+    let mut pats = vec![];
+    let mut probes = vec![];
+    let mut states = 1;
+    for i in 0..n {
+        let mut w = String::new();
+        w.push(if i.count_ones() % 2 == 0 { 'a' } else { 'b' });
+        let mut id = vec![];
+        let mut k = i;
+        loop {
+            id.push(digits[k % 34]);
+            k /= 34;
+            if k == 0 {
+                break;
+            }
+        }
+        id.reverse();
+        w.extend(id);
+        w.push('!'); // terminator: no keyword is a prefix of another
+        let front = (i * 7 + i / 5) % 3;
+        let back = 1 + (i * 37 + i / 11) % 4;
+        pats.push(CPat::new(&format!("{}{}{}", "()".repeat(front), w, "()".repeat(back)), i));
+        states += front + back + w.len() + 1;
+        if i < 20 || i % 97 == 0 || i + 400 > n {
+            probes.push((w.clone(), vec![(i, 0, w.len())]));
+        }
+    }
+    Instance { name: format!("{n} short patterns <a|b><unique id>! with 0..2 + 1..4 empty groups (dense, irregular first-character transitions)"), cfg: Cfg::single(pats), probes, states }
+}
+
 pub fn run(tier: Tier) -> ! {
     let mut run = Run::new("C17", tier);
     let mut inst: Vec<Instance> = vec![
@@ -206,6 +242,8 @@ pub fn run(tier: Tier) -> ! {
         padded_keywords_instance(300, 12),   // ~  7 000 NFA-level states
         padded_keywords_instance(620, 100),  // ~ 69 000 NFA-level states: beyond 2^16 without a large DFA
         padded_keywords_instance(1400, 40),  // ~ 72 000
+        dense_instance(1000),
+        dense_instance(9_000), // ~ 75 000 NFA-level states, a trie of ~ 20 000 deterministic states
     ];
     // beyond 2^16 states (minutes per instance)
     let big_quick = std::env::var("VERIF_C17_BIG").map(|v| v != "0").unwrap_or(true);
